@@ -289,6 +289,35 @@ func checkC17(c *Ctx) {
 
 	// Z5: the indexer handles the empty graph
 	c17EmptyGraph(c)
+
+	// Z6: the YAML tree the profile parser recurses over is finite: the wrapper never follows alias nodes (the only
+	// way a yaml.Node graph can contain a cycle), so every recursion over Content descends on a finite tree
+	r.Rule("C17.Z6", "the YAML wrapper never dereferences alias nodes (no cyclic node graphs)", 1)
+	aliasReads := 0
+	for _, pk := range p.modPkgsSorted() {
+		for _, file := range pk.Syntax {
+			ast.Inspect(file, func(n ast.Node) bool {
+				sel, ok := n.(*ast.SelectorExpr)
+				if !ok || sel.Sel.Name != "Alias" {
+					return true
+				}
+				s := pk.TypesInfo.Selections[sel]
+				if s == nil || s.Kind() != types.FieldVal {
+					return true
+				}
+				nt := namedOf(s.Recv())
+				if nt == nil || nt.Obj().Name() != "Node" || objPkgPath(nt.Obj()) != yamlPath {
+					return true
+				}
+				aliasReads++
+				r.Bad("C17.Z6", relOf(pk)+"."+enclosingFuncName(pk, sel.Pos())+"#yaml-alias", p.Pos(sel.Pos()), "the Alias pointer of a YAML node is followed: a self-referential anchor (`not: &a {not: *a}`) makes the node graph cyclic and the profile parser recurse until the stack overflows, which no recover can catch")
+				return true
+			})
+		}
+	}
+	if aliasReads == 0 {
+		r.OK("C17.Z6", "yaml-alias-census", "", "yaml.Node.Alias is never read: the parser walks the finite Content tree only")
+	}
 }
 
 func recoversIndirectly(fn *ssa.Function) bool {
